@@ -259,6 +259,13 @@ fn candidates(w: &World, p: &Plan) -> Vec<(World, Plan)> {
         }
         out.push((w.clone(), q));
     }
+    if p.lua_load_yields.values().any(|v| *v != 0) {
+        let mut q = p.clone();
+        for v in q.lua_load_yields.values_mut() {
+            *v = 0;
+        }
+        out.push((w.clone(), q));
+    }
     if p.lua_busy.values().any(|v| *v != 0) {
         let mut q = p.clone();
         for v in q.lua_busy.values_mut() {
@@ -317,6 +324,7 @@ fn cleanup(w: &mut World, p: &mut Plan) {
     w.ai.retain(|t, _| used_tokens.contains(t));
     p.lua_yields.retain(|t, _| used_tokens.contains(t));
     p.lua_busy.retain(|t, _| used_tokens.contains(t));
+    p.lua_load_yields.retain(|s, _| used_scripts.contains(s));
     p.ai_timing.retain(|t, _| used_tokens.contains(t));
 }
 
